@@ -55,6 +55,9 @@ pub trait Uni: Sized + Encode + Decode {
     /// only such types take part in the mutated-stream comparison
     const ORDERED: bool = true;
     fn ty() -> String;
+    /// type term for this particular value (only differs from `ty()` where the shape of the
+    /// encoding depends on the value: BitVec = bit length + that many bytes)
+    fn ty_of(&self) -> String { Self::ty() }
     fn gen_(r: &mut Rng, d: u32) -> Self;
     /// model value, containers "as iterated"
     fn val(&self) -> String;
@@ -384,6 +387,44 @@ impl<T: Uni, const N: usize> Uni for [T; N] {
     fn cval(&self) -> String { format!("(VList {})", seq_cval(self.iter(), false)) }
 }
 
+// ---------------------------------------------------------------- bit vectors (feature bitvec)
+// modelled at byte level: the bit length as usize, then ceil(len/8) raw bytes; the value term
+// carries the bytes the ENCODER is expected to produce (eight bits per byte, first bit = least
+// significant for Lsb0, most significant for Msb0, last byte zero padded), computed here from
+// the bits, not from the encoder's output
+macro_rules! uni_bitvec {
+    ($store:ty, $order:ty, $msb:expr) => {
+        impl Uni for bitvec::vec::BitVec<$store, $order> {
+            const ORDERED: bool = false;
+            fn ty() -> String { "(TTuple [TUInt 64])".into() }
+            fn ty_of(&self) -> String { format!("(TTuple {})", coq_list(&std::iter::once("TUInt 64".to_string()).chain((0..self.len().div_ceil(8)).map(|_| "TU8".to_string())).collect::<Vec<_>>())) }
+            fn gen_(r: &mut Rng, _d: u32) -> Self {
+                let n = *r.pick(&[0u64, 1, 7, 8, 9, 15, 16, 17, 31, 33, 63, 64, 65, 70, 127, 129]) + r.below(2);
+                let mut v = Self::new();
+                for _ in 0..n { v.push(r.chance(1, 2)); }
+                v
+            }
+            fn val(&self) -> String {
+                let mut items = vec![format!("(VN {})", self.len())];
+                let bits: Vec<bool> = self.iter().by_vals().collect();
+                for ch in bits.chunks(8) {
+                    let mut b = 0u8;
+                    for (i, bit) in ch.iter().enumerate() { if *bit { b |= if $msb { 0x80 >> i } else { 1 << i }; } }
+                    items.push(format!("(VN {b})"));
+                }
+                format!("(VList {})", coq_list(&items))
+            }
+            fn cval(&self) -> String { self.val() }
+        }
+    };
+}
+uni_bitvec!(u8, bitvec::order::Lsb0, false);
+uni_bitvec!(u8, bitvec::order::Msb0, true);
+uni_bitvec!(u16, bitvec::order::Lsb0, false);
+uni_bitvec!(u32, bitvec::order::Msb0, true);
+uni_bitvec!(u64, bitvec::order::Msb0, true);
+uni_bitvec!(usize, bitvec::order::Lsb0, false);
+
 // ---------------------------------------------------------------- maps (entry lists)
 macro_rules! uni_map {
     ($($c:ident)::+, [$($bound:tt)*], $ordered:expr, $stream:expr) => {
@@ -634,11 +675,11 @@ fn table_term() -> String {
 
 fn run<T: Uni>(name: &str, r: &mut Rng, n: u64, out: &mut Out, st: &mut Stats) {
     let plugin = plugin();
-    let ty = T::ty();
     let mut count = 0;
     for _ in 0..n {
         TBL.with(|t| t.borrow_mut().clear());
         let v = T::gen_(r, 0);
+        let ty = v.ty_of();
         let mut enc = PostcardEncoder::new(Vec::new());
         enc.encode(&v, &plugin).expect("encode to Vec cannot fail");
         let bytes = enc.into_inner();
@@ -696,6 +737,23 @@ macro_rules! universe {
     ($r:expr, $n:expr, $out:expr, $st:expr; $($t:ty),* $(,)?) => { $( run::<$t>(stringify!($t), $r, $n, $out, $st); )* };
 }
 
+/// witness of the recorded finding `c12_interned_skip_reference`: an interned value with a
+/// non-default `#[serialize(skip)]` field that occurs twice is written as (value, reference by the
+/// hash of the FULL value); a fresh interner registers the decoded value under the hash of the
+/// value WITHOUT the skipped field, so the reference cannot be resolved
+fn witness_interned_skip() -> &'static str {
+    let i1 = Interner::new(4, SeededStableHasherBuilder::<Sip128Hasher>::new(7));
+    let h = i1.intern(TupleS(1, "skipped".to_string(), 2));
+    let v = (h.clone(), h.clone());
+    let mut p1 = Plugin::new(); p1.insert(i1.clone());
+    let mut e = PostcardEncoder::new(Vec::new());
+    e.encode(&v, &p1).unwrap();
+    let bytes = e.into_inner();
+    let fresh = fresh_plugin();
+    let r = std::panic::catch_unwind(std::panic::AssertUnwindSafe(|| { let mut d = PostcardDecoder::new(&bytes[..]); d.decode::<(Interned<TupleS>, Interned<TupleS>)>(&fresh) }));
+    match r { Ok(Ok(x)) => if x.0.0 == 1 && x.1.0 == 1 { "ok" } else { "wrong value" }, Ok(Err(_)) => "error", Err(_) => "panic" }
+}
+
 fn main() {
     let args: Vec<String> = std::env::args().collect();
     let dir = &args[1];
@@ -728,6 +786,8 @@ fn main() {
         Interned<String>, Interned<str>, Interned<[u32]>, Interned<Leaf>, Vec<Interned<String>>, Vec<Interned<Leaf>>,
         (Interned<String>, Interned<str>, Interned<String>), BTreeMap<u8, Interned<Leaf>>, Vec<Option<Interned<[u32]>>>,
         (Vec<Interned<Leaf>>, Interned<String>, Vec<Interned<Leaf>>),
+        bitvec::vec::BitVec<u8, bitvec::order::Lsb0>, bitvec::vec::BitVec<u8, bitvec::order::Msb0>, bitvec::vec::BitVec<u16, bitvec::order::Lsb0>,
+        bitvec::vec::BitVec<u32, bitvec::order::Msb0>, bitvec::vec::BitVec<u64, bitvec::order::Msb0>, bitvec::vec::BitVec<usize, bitvec::order::Lsb0>,
     );
     std::fs::create_dir_all(dir).unwrap();
     for (k, lines) in out.shards.iter().enumerate() {
@@ -735,7 +795,7 @@ fn main() {
     }
     let types = st.by_type.len();
     println!(
-        "{{\"cases\":{},\"types\":{},\"mutated\":{},\"mutated_ok\":{},\"mutated_err\":{},\"discarded_absurd_len\":{},\"bytes_total\":{},\"rust_fail\":{:?}}}",
-        st.cases, types, st.mutated, st.mutated_ok, st.mutated_err, st.discarded, st.bytes_total, st.rust_fail
+        "{{\"cases\":{},\"types\":{},\"mutated\":{},\"mutated_ok\":{},\"mutated_err\":{},\"discarded_absurd_len\":{},\"bytes_total\":{},\"interned_skip_fresh_decode\":\"{}\",\"rust_fail\":{:?}}}",
+        st.cases, types, st.mutated, st.mutated_ok, st.mutated_err, st.discarded, st.bytes_total, witness_interned_skip(), st.rust_fail
     );
 }
